@@ -244,7 +244,19 @@ def coq_eval(name, text, timeout=1500):
     rel = "gen/cases_%s.v" % name
     with open(os.path.join(COQ, rel), "w") as f:
         f.write(text)
-    return sh("timeout %d coqc -R . Charon -w -notation-overridden,-deprecated-hint-without-locality,-deprecated-instance-without-locality,-ambiguous-paths,-redundant-canonical-projection %s" % (timeout, rel), cwd=COQ, timeout=timeout + 30)
+    res = sh("timeout %d coqc -R . Charon -w -notation-overridden,-deprecated-hint-without-locality,-deprecated-instance-without-locality,-ambiguous-paths,-redundant-canonical-projection %s" % (timeout, rel), cwd=COQ, timeout=timeout + 30)
+    # only the printed result is used: drop the compiled products (large .glob/.vo files pile up otherwise); the .v stays for inspection
+    base = os.path.join(COQ, "gen", "cases_%s" % name)
+    for ext in (".vo", ".vok", ".vos", ".glob"):
+        try:
+            os.remove(base + ext)
+        except OSError:
+            pass
+    try:
+        os.remove(os.path.join(COQ, "gen", ".cases_%s.aux" % name))
+    except OSError:
+        pass
+    return res
 
 
 def parse_marked(out, marker):
